@@ -19,6 +19,9 @@ def explore(prog, params, method, sy_shared):
     B = dict(target_cap=params['tlen'], content_cap=2)
     hs = []
     if params['origin']: hs.append(('Origin', 'http://o'))
+    if method == 'OPTIONS' and params.get('preflight', 'none') != 'none':
+        hs.append(('Access-Control-Request-Method', 'PUT'))
+        if params['preflight'] == 'method+headers': hs.append(('Access-Control-Request-Headers', 'x-a'))
     p2 = dict(params, method=method, headers=hs)
     st, req, sy = build_state(p2, B)
     st.world['fs'] = ENV.new_fs(content_cap=2, shared_names=True)
@@ -107,6 +110,16 @@ def case(prog, params):
                         acao = [v for n, v in sh['headers'] if n == b'access-control-allow-origin']
                         if len(acao) != 1: checks.append(('OPTIONS-without-cross-origin-grant', True))
                         else: checks.append(('OPTIONS-grant-differs-from-origin', b_not(acao[0].eq(S('http://o')))))
+                        pf = params.get('preflight', 'none')
+                        if pf != 'none':
+                            # a browser preflight succeeds only if the requested method (and headers) are granted
+                            acam = [v for n, v in sh['headers'] if n == b'access-control-allow-methods']
+                            if len(acam) != 1: checks.append(('OPTIONS-preflight-without-allow-methods', True))
+                            else: checks.append(('OPTIONS-preflight-does-not-grant-the-requested-method', b_not(acam[0].eq(S('PUT')))))
+                            if pf == 'method+headers':
+                                acah = [v for n, v in sh['headers'] if n == b'access-control-allow-headers']
+                                if len(acah) != 1: checks.append(('OPTIONS-preflight-without-allow-headers', True))
+                                else: checks.append(('OPTIONS-preflight-does-not-grant-the-requested-headers', b_not(acah[0].eq(S('x-a')))))
                 for label, bad in checks:
                     bad = simp_bool(bad) if not isinstance(bad, bool) else bad
                     if bad is False: continue
@@ -180,7 +193,7 @@ def native_triplet(chk, w):
             except OSError: pass
         out = {}
         for m in ('GET', w['other']):
-            reqb = ('%s %s HTTP/1.1\r\n' % (m, w['target'])).encode('latin1') + (b'Origin: http://o\r\n' if p['origin'] else b'') + (b'Range: bytes=0-\r\n' if p.get('range') == 'open' else b'Range: bytes=0-0,1-1\r\n' if p.get('range') == 'multi' else b'') + b'\r\n'
+            reqb = ('%s %s HTTP/1.1\r\n' % (m, w['target'])).encode('latin1') + (b'Origin: http://o\r\n' if p['origin'] else b'') + ((b'Access-Control-Request-Method: PUT\r\n' + (b'Access-Control-Request-Headers: x-a\r\n' if p.get('preflight') == 'method+headers' else b'')) if (m == 'OPTIONS' and p.get('preflight', 'none') != 'none') else b'') + (b'Range: bytes=0-\r\n' if p.get('range') == 'open' else b'Range: bytes=0-0,1-1\r\n' if p.get('range') == 'multi' else b'') + b'\r\n'
             cmd = 'process' if p['entry'] == 'execute' else 'process_request'
             st, o = chk.oracle.run([(cmd, [reqb, len(reqb)])], cwd=root, env={'RWS_CONFIG_CORS_ALLOW_ALL': 'true'})[0]
             raw = o[0] if st == 'ok' and o else b''
@@ -208,6 +221,11 @@ def main():
                     for sec in ('dot', 'slash', 'qh', 'alnum', 'other'):
                         if rg == 'multi' and chk.tier == 'quick' and (sec not in ('alnum', 'slash') or n != P['tlens'][0]): continue
                         cases.append(dict(entry=entry, tlen=n, first='slash', second=sec, origin=org, range=rg))
+    # browser preflights: OPTIONS with Access-Control-Request-Method (and -Headers)
+    for entry in P['entries']:
+        for pf in ('method', 'method+headers'):
+            for sec in (('alnum',) if chk.tier == 'quick' else ('alnum', 'slash', 'dot')):
+                cases.append(dict(entry=entry, tlen=P['tlens'][0], first='slash', second=sec, origin=True, range='none', preflight=pf))
     results = chk.run_cases(case, cases, label='GET/HEAD/OPTIONS relational sweep')
     chk.extra['GET_paths_serving_a_file'] = sum(r.get('served', 0) for r in results); chk.extra['joint_pairs_checked'] = sum(r.get('pairs', 0) for r in results)
 
@@ -222,6 +240,8 @@ def main():
         else:
             code = o['status'].split(' ')[1] if ' ' in o['status'] else '0'
             diff = not code.startswith('2') or o['body_len'] != 0 or (w['params']['origin'] and not any(h.lower().startswith('access-control-allow-origin: http://o') for h in o['headers']))
+            pf_ = w['params'].get('preflight', 'none')
+            if pf_ != 'none': diff = diff or not any(h.lower().startswith('access-control-allow-methods: put') for h in o['headers']) or (pf_ == 'method+headers' and not any(h.lower().startswith('access-control-allow-headers: x-a') for h in o['headers']))
         return {'reproduced': bool(diff), 'native': t}
     chk.finish(replay_fn=replay, vacuity=lambda: None if chk.extra['GET_paths_serving_a_file'] else 'GET never served a file on any explored path')
 
